@@ -105,7 +105,7 @@ NextSt(ev, s) ==
     [] ev.ev = "Root"  -> [s EXCEPT !.roots = Append(s.roots, [samples |-> ev.samples])]
     \* the faithful closure loop grows quadratically per pass: the algorithm layer follows the code only on
     \* instances of bounded size (drift is information, never a verdict)
-    [] ev.ev = "MergeModels" /\ ev.exc = "" /\ Len(ev.before.models) <= 12 ->
+    [] ev.ev = "MergeModels" /\ ev.exc = "" ->
          [s EXCEPT !.last = FixModels(ev.after),
                    !.hasFirst = TRUE,
                    !.first = IF s.hasFirst THEN s.first ELSE CanonGraph(FixModels(ev.after))]
